@@ -182,6 +182,65 @@ fn prepare(path: u8, buf: Option<usize>) -> Result<Rig, String> {
     Err("could not reach the wanted state".into())
 }
 
+/// Paths 4 and 5: like paths 1 and 2, but an EARLIER diagnostics request of the same history (4: the
+/// offline probe before the validating request; 5: a first request_diagnostics() round in data exchange)
+/// was answered with `first`: the same 6 header bytes as the case's reply and OTHER extended data.
+/// What is on record afterwards must be the last accepted reply, not a mix (found by a seeded change:
+/// "same header" taken for "same diagnostics").
+fn prepare_second(path: u8, buf: Option<usize>, first: &[u8]) -> Result<Rig, String> {
+    let mut p = PeriphCfg::simple(ADDR, 2, 1);
+    p.diag_buf = buf;
+    let cfg = RigCfg::basic(vec![p.clone()]);
+    let mut rig = Rig::new(&cfg);
+    let mut slave = RefSlave::new(&p);
+    let mut diag_seen = 0;
+    let mut forged = false;
+    for _ in 0..80 {
+        rig.advance(200);
+        let sent = match rig.transmit(false) {
+            Some(s) => s,
+            None => continue,
+        };
+        if sent.expects_reply.is_none() {
+            continue;
+        }
+        let is_diag = classify(&sent.frame) == SlaveService::Diag;
+        if is_diag {
+            diag_seen += 1;
+        }
+        if path == 4 {
+            // forge the probe (first diagnostics request), stop at the validating one (second)
+            if is_diag && diag_seen == 1 {
+                let _ = slave.handle(&sent.frame);
+                rig.reply(ADDR, first);
+                forged = true;
+                continue;
+            }
+            if is_diag && forged {
+                return Ok(rig);
+            }
+        } else {
+            // data exchange reached: first user-requested round forged, second one is the case's
+            if is_diag && forged {
+                return Ok(rig);
+            }
+            if is_diag && rig.periph(0).is_running() && !forged {
+                let _ = slave.handle(&sent.frame);
+                rig.reply(ADDR, first);
+                forged = true;
+                rig.periph(0).request_diagnostics();
+                continue;
+            }
+        }
+        let resp = slave.handle(&sent.frame).ok_or("slave did not answer")?;
+        rig.reply(ADDR, &resp);
+        if path == 5 && !forged && rig.periph(0).is_running() {
+            rig.periph(0).request_diagnostics();
+        }
+    }
+    Err("unreachable".into())
+}
+
 pub fn run_case(c: &Case) -> Result<&'static str, (String, String)> {
     let frame = rc::encode(&rc::RFrame::Data { da: 2, sa: ADDR, dsap: c.dsap, ssap: c.ssap, fc: 0x08, du: c.pdu.clone() });
     let well_formed = c.dsap == Some(62) && c.ssap == Some(60) && c.pdu.len() >= 6;
@@ -215,7 +274,21 @@ pub fn run_case(c: &Case) -> Result<&'static str, (String, String)> {
         };
     }
 
-    let mut rig = prepare(c.path, c.buf).map_err(|e| ("harness.prepare".to_string(), e))?;
+    let mut rig = if c.path >= 4 {
+        // the earlier reply: same header, extended part with every byte inverted (and one byte longer)
+        let mut first_pdu = c.pdu[..6.min(c.pdu.len())].to_vec();
+        first_pdu.extend(tail.iter().map(|b| !*b));
+        first_pdu.push(0x5A);
+        let first = rc::encode(&rc::RFrame::Data { da: 2, sa: ADDR, dsap: Some(62), ssap: Some(60), fc: 0x08, du: first_pdu });
+        match prepare_second(c.path, c.buf, &first) {
+            Ok(r) => r,
+            // headers that keep the master from getting any further (faults, not ready) have no second round
+            Err(e) if e == "unreachable" => return Ok("second_round_unreachable"),
+            Err(e) => return Err(("harness.prepare".to_string(), e)),
+        }
+    } else {
+        prepare(c.path, c.buf).map_err(|e| ("harness.prepare".to_string(), e))?
+    };
     // previous diagnostics (for the "ignored / not stored" clauses)
     let prev = rig.periph(0).last_diagnostics().map(|d| (d.flags.bits(), d.ident_number, d.master_address, d.extended_diagnostics.raw_diag_buffer().map(|b| b.to_vec())));
     catch(|| rig.reply(ADDR, &frame)).map_err(|p| ("receive_reply.panic".to_string(), format!("{}:{} {}", p.file, p.line, p.msg)))?;
@@ -287,7 +360,7 @@ pub fn run_case(c: &Case) -> Result<&'static str, (String, String)> {
                     if raw.as_deref() != Some(tail) {
                         return Err(("ext.not_stored".into(), format!("fits ({} <= {n}) but buffer holds {:?}", tail.len(), raw.as_ref().map(|r| hex(r)))));
                     }
-                    outcome = "ext_stored";
+                    outcome = if c.path >= 4 { "ext_stored_second_round" } else { "ext_stored" };
                 } else {
                     let before = prev_raw.clone().unwrap_or_default();
                     if raw.clone().unwrap_or_default() != before {
@@ -437,6 +510,28 @@ pub fn run(tier: Tier) -> ! {
         }
     }
 
+    // F: second diagnostics reply with the same header and other extended data (paths 4, 5)
+    {
+        let mut extra = vec![];
+        for case in &cases {
+            let wf = case.dsap == Some(62) && case.ssap == Some(60) && case.pdu.len() > 6 && case.pdu[0] & 0x08 != 0;
+            if wf && case.buf.map(|b| b > 0).unwrap_or(false) && (case.path == 1 || case.path == 2) {
+                let mut c2 = case.clone();
+                c2.path = case.path + 3;
+                extra.push(c2);
+            }
+        }
+        // headers a healthy slave really sends, with every catalogue block as extended data
+        for w in [0x0408u16, 0x0c08, 0x0608, 0x2c08] {
+            for (i, blk) in block_catalogue().iter().enumerate() {
+                for path in [4u8, 5] {
+                    extra.push(Case { path, pdu: [std6(w, 0, 2, 0x1337), blk.clone()].concat(), dsap: Some(62), ssap: Some(60), buf: Some(if i % 2 == 0 { 244 } else { blk.len() + 1 }) });
+                }
+            }
+        }
+        cases.extend(extra);
+    }
+
     let evals = AtomicU64::new(0);
     let outcomes: std::sync::Mutex<std::collections::BTreeMap<&'static str, u64>> = Default::default();
     cases.par_iter().for_each(|case| {
@@ -477,7 +572,7 @@ pub fn run(tier: Tier) -> ! {
     ev.exhaustive = true;
     ev.bounds = json!({"flag_words": 65536, "pdu_lengths": "0..=244", "ext_strings": "all of length 1 and 2", "block_sequences": seqs.len(), "paths": ["Offline probe", "ValidateConfig", "DataExchange+request_diagnostics", "DpScanner"]});
     ev.distinct_outcomes = outcomes.len() as u64;
-    ev.required_witnesses = vec!["decoded", "ext_stored", "ext_too_large", "ignored", "scanner_found"];
+    ev.required_witnesses = vec!["decoded", "ext_stored", "ext_too_large", "ignored", "scanner_found", "ext_stored_second_round"];
     ev.assumptions.push("blocks of announced length 1 may be yielded empty or treated as malformed (both accepted)".into());
     ev.assumptions.push("the always-one status bit 0x0400 may be stripped from the reported flags".into());
     finish(ev)
